@@ -1451,44 +1451,86 @@ fn float_prim_cases(out: &mut Out, rng: &mut Rng, cases: usize) {
                     )
                 })
                 .collect();
-            let mut fail: Option<String> = None;
-            let mut first: Option<(usize, &Vec<u32>)> = None;
+            // Every failing sub-check of the case is collected (not only the first). Lane mismatches
+            // between the generic ISA and an AVX ISA that fall under one of the two OPEN findings
+            // (the harness evaluates the finding's operand predicate itself) are kept apart, and in
+            // those lanes each ISA is still checked against its own documented/observed semantics,
+            // so that a different violation in the same case is reported as a new failure.
+            let known_kind = |x: f32, y: f32| -> Option<&'static str> {
+                match op {
+                    "min" | "max" if x.is_nan() || y.is_nan() || (x == 0.0 && y == 0.0 && x.to_bits() != y.to_bits()) => Some("minmax-nan-zero"),
+                    "trunc_i" | "round_i" if !(x.abs() < 2147483648.0) => Some("to-int-out-of-range"),
+                    _ => None,
+                }
+            };
+            // per-ISA semantics inside the known-divergence lanes
+            let isa_def = |w: usize, x: f32, y: f32| -> Option<Vec<u32>> {
+                match (op, w) {
+                    ("min", 0) | ("max", 0) => Some(vec![fbits(x), fbits(y)]), // Rust f32::min/max: one of the operands
+                    ("min", _) => Some(vec![fbits(if x < y { x } else { y })]), // vminps: second operand unless x < y
+                    ("max", _) => Some(vec![fbits(if x > y { x } else { y })]),
+                    ("trunc_i", 0) => Some(vec![x as i32 as u32]),
+                    ("round_i", 0) => Some(vec![x.round_ties_even() as i32 as u32]),
+                    ("trunc_i", _) | ("round_i", _) => Some(vec![0x8000_0000]),
+                    _ => None,
+                }
+            };
+            let mut other: Vec<String> = vec![];
+            let mut known: Vec<(&'static str, String)> = vec![];
+            let ok_res: Vec<(usize, &Vec<u32>)> = res.iter().filter_map(|(w, r)| r.as_ref().ok().map(|v| (*w, v))).collect();
             for (w, r) in &res {
-                match r {
-                    Err(m) => fail = fail.or(Some(format!("isa={} panicked: {}", ISA_NAMES[*w], m))),
-                    Ok(v) => {
-                        for i in 0..64 {
-                            if let Some(e) = scalar_f(op, a[i], b[i], *w != 0) {
-                                if v[i] != e && fail.is_none() {
-                                    fail = Some(format!(
-                                        "isa={} f32 {}({:08x},{:08x}) = {:08x}, scalar definition gives {:08x}",
-                                        ISA_NAMES[*w], op, a[i].to_bits(), b[i].to_bits(), v[i], e
-                                    ));
-                                }
-                            }
+                if let Err(m) = r {
+                    other.push(format!("isa={} panicked: {}", ISA_NAMES[*w], m));
+                }
+            }
+            for &(w, v) in &ok_res {
+                for i in 0..64 {
+                    if let Some(e) = scalar_f(op, a[i], b[i], w != 0) {
+                        if v[i] != e {
+                            other.push(format!(
+                                "isa={} f32 {}({:08x},{:08x}) = {:08x}, scalar definition gives {:08x}",
+                                ISA_NAMES[w], op, a[i].to_bits(), b[i].to_bits(), v[i], e
+                            ));
                         }
-                        if let Some((w0, v0)) = first {
-                            for i in 0..64 {
-                                // FMA-dependent ops: generic (two roundings) vs FMA ISAs may differ by
-                                // rounding only; the two FMA ISAs must agree exactly.
-                                let relaxed = !f_exact(op) && w0 == 0;
-                                let ok = relaxed || v0[i] == v[i];
-                                if !ok && fail.is_none() {
-                                    fail = Some(format!(
-                                        "f32 {}({:08x},{:08x}): isa={} gives {:08x}, isa={} gives {:08x}",
-                                        op, a[i].to_bits(), b[i].to_bits(), ISA_NAMES[w0], v0[i], ISA_NAMES[*w], v[i]
-                                    ));
-                                }
+                    } else if known_kind(a[i], b[i]).is_some() {
+                        if let Some(allowed) = isa_def(w, a[i], b[i]) {
+                            if !allowed.contains(&v[i]) {
+                                other.push(format!(
+                                    "isa={} f32 {}({:08x},{:08x}) = {:08x}, this ISA's own semantics give {:08x?}",
+                                    ISA_NAMES[w], op, a[i].to_bits(), b[i].to_bits(), v[i], allowed
+                                ));
                             }
-                            if w0 == 0 && !f_exact(op) {
-                                first = Some((*w, v));
-                            }
-                        } else {
-                            first = Some((*w, v));
                         }
                     }
                 }
             }
+            for pair in ok_res.windows(2) {
+                let (w0, v0) = pair[0];
+                let (w1, v1) = pair[1];
+                for i in 0..64 {
+                    // FMA-dependent ops: generic (two roundings) vs the FMA ISAs differ by rounding
+                    // only and are checked against their own scalar expression above.
+                    if (!f_exact(op) && w0 == 0) || v0[i] == v1[i] {
+                        continue;
+                    }
+                    let msg = format!(
+                        "f32 {}({:08x},{:08x}): isa={} gives {:08x}, isa={} gives {:08x}",
+                        op, a[i].to_bits(), b[i].to_bits(), ISA_NAMES[w0], v0[i], ISA_NAMES[w1], v1[i]
+                    );
+                    match known_kind(a[i], b[i]) {
+                        Some(k) if w0 == 0 => known.push((k, msg)),
+                        _ => other.push(msg),
+                    }
+                }
+            }
+            let fail: Option<String> = if !other.is_empty() {
+                let shown: Vec<String> = other.iter().take(4).cloned().collect();
+                Some(format!("{} failing sub-checks: {} (+{} lanes of known generic-vs-AVX divergence)", other.len(), shown.join(" | "), known.len()))
+            } else if let Some((k, m)) = known.first() {
+                Some(format!("known-divergence[{}] lanes={} first: {}", k, known.len(), m))
+            } else {
+                None
+            };
             out.bucket(&format!("f32_{}", op));
             out.case(&format!("# f32 {} case={} a={} b={}", op, ci, hex_list(&a), hex_list(&b)), "-", fail.as_deref(), true);
         }
